@@ -22,7 +22,7 @@ RULE = ('2-4 contenders (threads sharing one Cache, threads with their own Cache
         'CLOCK_MONOTONIC stamps. evaluations = schedules and process runs judged; distinct_nontrivial = distinct '
         'schedules in which a contender was preempted while holding')
 DISTINCT = ('schedules_preempted_while_holding', 'process_runs')
-REQUIRED = ('critical_sections_that_failed', 'with_statement_sections', 'schedules_lock', 'schedules_rlock', 'schedules_semaphore', 'schedules_barrier', 'critical_sections',
+REQUIRED = ('barrier_rounds_beside_a_direct_holder', 'critical_sections_that_failed', 'with_statement_sections', 'schedules_lock', 'schedules_rlock', 'schedules_semaphore', 'schedules_barrier', 'critical_sections',
             'contended_acquires', 'nested_acquires', 'refused_releases', 'process_runs_done', 'fanout_schedules',
             'fork_runs_done', 'waiting_contenders_failed_by_injection', 'contenders_with_pickled_handles')
 ASSUMPTIONS = ('witness intervals lie strictly inside the claimed hold period, so an overlap is a proof and clock '
@@ -60,6 +60,7 @@ def schedule(dc, sc, res, rng, label, kind):
     inject = kind == 'barrier' and rng.random() < 0.6
     factory = rng.choice([dc.Lock, dc.Lock, dc.BoundedSemaphore]) if kind == 'barrier' else None
     budget = [rng.randrange(1, 4)]
+    direct_holder = rng.random() < 0.5
 
     class InjectedFault(Exception):
         pass
@@ -129,11 +130,23 @@ def schedule(dc, sc, res, rng, label, kind):
                 # a critical section may fail: what was taken for it is given back all the same
                 fails = rng.random() < 0.2
                 if kind == 'barrier':
-                    @dc.barrier(caches[ci], factory, name=lock_key)
+                    # every contender wraps a function of its own (another qualified name) under the one barrier name,
+                    # and the last contender takes the lock of that name directly: they all exclude each other
                     def work():
                         critical(ci)
                         if fails:
                             raise SectionFailed()
+                    work.__qualname__ = 'contender_%d.work' % ci
+                    work.__name__ = 'work_%d' % ci
+                    if ci == n - 1 and direct_holder:
+                        direct = factory(caches[ci], lock_key)
+
+                        def work(inner=work):      # noqa: F811
+                            with direct:
+                                inner()
+                        res.count('barrier_rounds_beside_a_direct_holder')
+                    else:
+                        work = dc.barrier(caches[ci], factory, name=lock_key)(work)
                     me.phase = 'acquire'
                     try:
                         work()
